@@ -614,6 +614,11 @@ def isSampleOf (q s : String) : Bool :=
 def ucCount (label : String → Option String) (recs : List UcRec) (o s : String) : Rat :=
   ((recs.filter (fun r => isHS r && label r.seed == some o && isSampleOf r.query s)).length : Nat)
 
+/-- every seed has a label, and different seeds have different labels -/
+def labelsOk (label : String → Option String) (recs : List UcRec) : Bool :=
+  recs.all (fun r => (label r.seed).isSome) &&
+  recs.all (fun r1 => recs.all (fun r2 => label r1.seed != label r2.seed || r1.seed == r2.seed))
+
 def holdsUc (lines : List (List String)) (fasta : Option (List String))
     (res : Except Err (Table Rat)) : Verdict :=
   match ucRecords lines with
@@ -621,21 +626,21 @@ def holdsUc (lines : List (List String)) (fasta : Option (List String))
   | .ok recs =>
     if recs.any (fun r => isHS r && !r.query.toList.contains '_') then chk "uc_reject" (noTable res)
     else
-      let pairs : Option (Except Err (List (String × String))) := fasta.map fastaMap
-      match pairs with
+      match fasta.map fastaMap with
       | some (.error _) => chk "uc_reject" (noTable res)
       | some (.ok []) => none
-      | _ =>
+      | pairs =>
+        -- the label of a seed: itself, or what the fasta map says (a later line wins)
         let label : String → Option String := match pairs with
-          | some (.ok ps) => fun x => ((ps.filter (fun p => p.1 == x)).getLast?).map (·.2)
+          | some (.ok ps) => mapGet ps
           | _ => fun x => some x
-        let seeds := (recs.map (·.seed)).eraseDups
-        let labels := seeds.filterMap label
-        if labels.length != seeds.length || !distinct labels then chk "uc_reject" (noTable res)
+        if !labelsOk label recs then chk "uc_reject" (noTable res)
         else match res with
           | .error _ => some "uc_accept"
           | .ok t => allV [
-              chk "uc_ids" (distinct t.obs && distinct t.samp && sameMembers t.obs labels &&
+              chk "uc_ids" (distinct t.obs && distinct t.samp &&
+                t.obs.all (fun o => recs.any (fun r => label r.seed == some o)) &&
+                recs.all (fun r => t.obs.any (fun o => label r.seed == some o)) &&
                 (recs.filter isHS).all (fun r => t.samp.any (isSampleOf r.query)) &&
                 t.samp.all (fun s => (recs.filter isHS).any (fun r => isSampleOf r.query s)) && t.wfb),
               chk "uc_cell" (t.obs.all fun o => t.samp.all fun s => t.cell? o s == some (ucCount label recs o s))]
